@@ -50,8 +50,8 @@ PLAN = {
         "thorough": [R("v0", 4), R("v1", 2), R("miri", 2, timeout=3600)],
     },
     "C09": {
-        "quick": [R("v0", 3), R("miri", 1, timeout=1500)],
-        "thorough": [R("v0", 16), R("v1", 4), R("asan", 4), R("miri", 6, timeout=7200)],
+        "quick": [R("v0", 3), R("miri", 4, timeout=1500)],
+        "thorough": [R("v0", 16), R("v1", 4), R("asan", 4, scale=0.2), R("miri", 16, timeout=7200)],
     },
     "C10": {
         "quick": [R("v0", 4), R("miri", 1, timeout=1500)],
